@@ -322,7 +322,7 @@ SPEC = {
              'labels added with it), host discipline (old gates structurally / functionally unchanged). Non-trivial: '
              'width >= 2 and, for add_* forms, >=1 internal operand gate.'),
     'assumptions': ['reference tables from vlib/refsem.py'],
-    'subs': [Sub('arith', cases, check_arith, {'quick': 1800, 'thorough': 25000})],
+    'subs': [Sub('arith', cases, check_arith, {'quick': 1800, 'thorough': 125000})],
     'required_classes': {'arith': KINDS + ['generate', 'add', 'be', 'le', 'internal_operands', 'unequal_widths',
                                            'const_does_not_fit', 'shape_mismatch_rejected', 'add_outputs', 'no_add_outputs']},
 }
